@@ -274,6 +274,45 @@ let is_ok_status = function
     EmptyString)))) st0
 | _ -> false
 
+(** val module_items : node -> node list **)
+
+let module_items = function
+| NObj l ->
+  (match l with
+   | [] -> []
+   | n :: l0 ->
+     (match n with
+      | Field (_, _) ->
+        (match l0 with
+         | [] -> []
+         | n0 :: l1 ->
+           (match n0 with
+            | Field (_, v0) ->
+              (match v0 with
+               | NArr items ->
+                 (match l1 with
+                  | [] -> []
+                  | _ :: l2 -> (match l2 with
+                                | [] -> items
+                                | _ :: _ -> []))
+               | _ -> [])
+            | _ -> []))
+      | _ -> []))
+| _ -> []
+
+(** val subseq_items : node list -> node list -> bool **)
+
+let rec subseq_items xs ys =
+  match xs with
+  | [] -> true
+  | x :: xr ->
+    (match ys with
+     | [] -> false
+     | y :: yr ->
+       if jv_eqb (enc x) (enc y)
+       then subseq_items xr yr
+       else subseq_items xs yr)
+
 (** val extras : jv -> jv -> (str * str) list **)
 
 let extras c model_out =
@@ -500,21 +539,46 @@ let extras c model_out =
               true, false, true, true, true, false)), (String ((Ascii (false,
               false, true, false, true, true, true, false)),
               EmptyString)))))))))) c)
-     else true))) :: (((s_ (String ((Ascii (false, true, false, true, false,
+     else true))) :: (((s_ (String ((Ascii (true, true, true, true, false,
                          true, true, false)), (String ((Ascii (true, true,
-                         false, false, true, true, true, false)), (String
-                         ((Ascii (false, false, false, true, true, true,
-                         true, false)), (String ((Ascii (false, true, true,
-                         false, false, true, true, false)), (String ((Ascii
-                         (false, true, false, false, true, true, true,
-                         false)), (String ((Ascii (true, false, true, false,
-                         false, true, true, false)), (String ((Ascii (true,
+                         false, false, false, false, true, false)), (String
+                         ((Ascii (false, false, false, false, true, true,
+                         false, false)), (String ((Ascii (true, false, false,
+                         true, true, true, false, false)), (String ((Ascii
+                         (true, false, false, true, false, true, true,
+                         false)), (String ((Ascii (false, false, true, false,
+                         true, true, true, false)), (String ((Ascii (true,
                          false, true, false, false, true, true, false)),
-                         (String ((Ascii (true, true, true, true, true,
-                         false, true, false)), (String ((Ascii (true, false,
-                         false, true, false, true, true, false)), (String
-                         ((Ascii (false, true, true, true, false, true, true,
-                         false)), EmptyString))))))))))))))))))))),
+                         (String ((Ascii (true, false, true, true, false,
+                         true, true, false)), (String ((Ascii (true, true,
+                         false, false, true, true, true, false)),
+                         EmptyString))))))))))))))))))),
+  (b2s
+    (if e.e_opts.o_resolve_type
+     then true
+     else subseq_items (filter jsx_free (module_items input))
+            (module_items real)))) :: (((s_ (String ((Ascii (false, true,
+                                          false, true, false, true, true,
+                                          false)), (String ((Ascii (true,
+                                          true, false, false, true, true,
+                                          true, false)), (String ((Ascii
+                                          (false, false, false, true, true,
+                                          true, true, false)), (String
+                                          ((Ascii (false, true, true, false,
+                                          false, true, true, false)), (String
+                                          ((Ascii (false, true, false, false,
+                                          true, true, true, false)), (String
+                                          ((Ascii (true, false, true, false,
+                                          false, true, true, false)), (String
+                                          ((Ascii (true, false, true, false,
+                                          false, true, true, false)), (String
+                                          ((Ascii (true, true, true, true,
+                                          true, false, true, false)), (String
+                                          ((Ascii (true, false, false, true,
+                                          false, true, true, false)), (String
+                                          ((Ascii (false, true, true, true,
+                                          false, true, true, false)),
+                                          EmptyString))))))))))))))))))))),
   (b2s (jsx_free input))) :: (((s_ (String ((Ascii (true, true, false, false,
                                  true, true, true, false)), (String ((Ascii
                                  (true, false, false, false, false, true,
@@ -883,7 +947,7 @@ let extras c model_out =
               (true, false, true, false, true, true, true, false)), (String
               ((Ascii (false, false, true, false, true, true, true, false)),
               EmptyString)))))))))))) alt)
-     else true))) :: []))))))))))))))
+     else true))) :: [])))))))))))))))
 
 (** val regex_table : jv -> str -> bool **)
 
